@@ -32,7 +32,8 @@ CONSTANTS Tri      \* the method names that may also be "attr": present as a dat
 
 StatesOf(x) == IF x \in Tri THEN {"no", "meth", "attr"} ELSE {"no", "meth"}
 Caps == [run : StatesOf("run"), fill : StatesOf("fill"), compute : StatesOf("compute"), request : StatesOf("request"),
-         fill_into : StatesOf("fill_into"), m : StatesOf("m"), call : BOOLEAN, iter : BOOLEAN, cbf : BOOLEAN]
+         fill_into : StatesOf("fill_into"), m : StatesOf("m"), call : BOOLEAN, iter : BOOLEAN, cbf : BOOLEAN,
+         truth : BOOLEAN]       \* truth value of the element (FALSE: __bool__ / __len__ make it falsy)
 
 VARIABLES adapter, caps, arg, phase, res, log, sink, ret, uses
 vars == <<adapter, caps, arg, phase, res, log, sink, ret, uses>>
@@ -79,6 +80,9 @@ AsCallable(c) == [c EXCEPT !.run = NoAttr(@), !.fill = NoAttr(@), !.compute = No
                            !.fill_into = NoAttr(@), !.m = NoAttr(@)]
 AttrIsAbsent == Decided => res = Decide(adapter, AsCallable(caps), arg)
 CbfOnlyFillInto == (Decided /\ adapter # "FillInto") => res = Decide(adapter, [caps EXCEPT !.cbf = ~@], arg)
+\* the decision does not depend on the truth value of the element (an empty Sequence, a container-like element that
+\* is still empty, an element with __bool__ / __len__ are elements like any other)
+TruthIrrelevant == Decided => res = Decide(adapter, [caps EXCEPT !.truth = ~@], arg)
 \* gaining a capability never turns acceptance into rejection (one capability at a time; any larger
 \* element is reached by such steps)
 Gain(c) == {[c EXCEPT ![x] = "meth"] : x \in {"run", "fill", "compute", "request", "fill_into", "m"}}
